@@ -48,7 +48,9 @@ impl<T: RefCnt> CaS<T> for RwLock<()> {
         let lock = self.write();
         let cur = current.as_raw();
         let new = T::into_ptr(new);
-        let swapped = storage.compare_exchange(cur, new, Ordering::AcqRel, Ordering::Relaxed);
+        // Acquire even on failure: we are going to hand out whatever we found in there, and the
+        // swap/store that put it there doesn't take the lock before the exchange.
+        let swapped = storage.compare_exchange(cur, new, Ordering::AcqRel, Ordering::Acquire);
         let old = match swapped {
             Ok(old) => old,
             Err(old) => old,
